@@ -158,7 +158,9 @@ func TestStructBase(t *testing.T) {
 			p.ext, p.mNumRefLoc, p.mRefLocAll, p.mCM, p.mOctantDepth, p.mYPart, p.mCodedRes = 2, 2, true, true, 1, 1, true
 			p.tiles, p.tileCols, p.tileRows, p.listsMod, p.sliceExt, p.weighted, p.cabacInit = true, 2, 1, true, true, true, true
 		},
-		func(s *hvSPS, p *hvPPS) { p.ext, p.dPresent, p.dLayersMinus1, p.dBd, p.dMode, p.dNumVal, p.dMaxDiff = 4, true, 1, 0, 3, 3, 2 },
+		func(s *hvSPS, p *hvPPS) {
+			p.ext, p.dPresent, p.dLayersMinus1, p.dBd, p.dMode, p.dNumVal, p.dMaxDiff = 4, true, 1, 0, 3, 3, 2
+		},
 		func(s *hvSPS, p *hvPPS) {
 			p.ext, p.sAct, p.sActOffsets, p.sInit, p.sNum, p.sBdL, p.sBdC, p.sWritten = 8, true, true, true, 2, 2, 1, 2
 		},
